@@ -63,7 +63,8 @@ type Obs struct {
 	Matched  bool           `json:"matched"`
 	Reported bool           `json:"reported"`
 	Result   string         `json:"result"`
-	Changed  bool           `json:"changed"`
+	Changed  bool           `json:"changed"`        // any row of any table differs (fingerprint)
+	TChanged bool           `json:"target_changed"` // the entity's presence or modify index differs
 	Effect   string         `json:"effect,omitempty"`
 	Oracle   string         `json:"oracle"`
 	Sig      map[string]any `json:"sig,omitempty"`
@@ -1124,6 +1125,9 @@ func (b *run) conditional(t *target, pre, class, payload string, stale uint64) O
 	if rep {
 		o.Effect = t.reflects(b, payload)
 	}
+	if p2, c2 := t.cur(b); p2 != present || c2 != cur {
+		o.TChanged = true
+	}
 	switch {
 	case t.kind == "kvdelete":
 		// reported_ok <-> key absent afterwards /\ (was present -> matched)
@@ -1362,9 +1366,9 @@ func main() {
 	// 2. random histories on an accumulated state
 	n := *count
 	if n < 0 {
-		n = 150
+		n = 100
 		if *tier == "thorough" {
-			n = 2500
+			n = 1500
 		}
 	}
 	for i := 0; i < n; i++ {
